@@ -191,14 +191,15 @@ def run_case(ctx, case):
         p, ast, d, st, old = gen_start(R)
         if ref_v1.parse(ast, old) is None:
             raise harness.Skip("start-not-readable-by-model")
-        date = d + dt.timedelta(R.choice([0, 0, 1, 31, 366, -1, -400]))
+        date = d + dt.timedelta(R.choice([0, 0, 1, 31, 366, -1, -400, -100, -45]))
         if R.random() < 0.15:
             args = ["test", old, p] + flags_for(R, p) + ["--pin-date"]
             ctx.counters["legacy_pin_date_cases"] += 1
         else:
             args = ["test", old, p] + flags_for(R, p) + ["--date", date.isoformat()]
         res = harness.invoke(args)
-        must_succeed = "--pin-date" in args and "--tag" not in args and bool(
+        # (the same holds for a bump date EARLIER than the version's own date: the calendar parts are kept)
+        must_succeed = ("--pin-date" in args or date < d) and "--tag" not in args and bool(
             [t for n, t in (ref_v1.parse(ast, old) or []) if ref_v1.FIELD.get(n) == "bid" and set(t) != {"9"}])
         if must_succeed:
             ctx.counters["legacy_pin_date_bumps_that_must_succeed"] += 1
